@@ -281,7 +281,8 @@ public:
                 // likely to fail. In particular, if beta=0, then the test is ensured to fail.
                 // Hence when this happens, we force f to be zero, and then restart in the
                 // next iteration.
-                if (m_beta < beta_thresh)
+                // beta is compared with the size of A * v, which is ||h|| when f is this small
+                if (m_beta < beta_thresh * m_op.norm(h))
                 {
                     m_fac_f.setZero();
                     m_beta = RealScalar(0);
